@@ -37,6 +37,7 @@ import SwcVerif.Model.AlgoRunVolCtl
 import SwcVerif.Model.AlgoRunNodeBranch
 import SwcVerif.Model.AlgoRunMst
 import SwcVerif.Model.AlgoRunMstFront
+import SwcVerif.Model.AlgoRunMstRest
 import SwcVerif.Model.AlgoRunSholl
 import SwcVerif.Model.AlgoRunNodeFeat
 import SwcVerif.Model.AlgoRunResample
@@ -114,6 +115,8 @@ def dispatch (op : String) (args : List String) : String :=
   | "gtips" | "gnodebranch" | "gnode" => AlgoRun.handleNodeBranch op args
   | "gmst" => AlgoRun.handleMst args
   | "gmstcall" => AlgoRun.handleMstCall args
+  | "gmstctor" => AlgoRun.handleMstCtor args
+  | "gmsttail" => AlgoRun.handleMstTail args
   | "gsholl" => AlgoRun.handleSholl args
   | "gnodefeat" => AlgoRun.handleNodeFeat args
   | "gpoprows" | "gpoprows3" => AlgoRun.handlePopRows (op == "gpoprows3") args
